@@ -126,6 +126,11 @@ def partial_op_sites(V, body):
             elif f.get("trait") == "control::tag::TagSliceExt":
                 r, _ = operand_deep_root(body, t["args"][0]) if t["args"] else (None, [])
                 out.append({"bb": i, "pos": ("t",), "root": r, "desc": "call %s" % cp, "kinds": {"ctrl"}})
+            elif cp in ("core::mem::replace", "core::mem::swap", "core::ptr::write", "core::ptr::replace", "core::ptr::mut_ptr::*mut T::write",
+                        "core::ptr::mut_ptr::*mut T::replace", "core::mem::take") and _is_tag_subst(f) and t["args"]:
+                # a single control byte written through a library primitive instead of an assignment
+                r, _ = operand_deep_root(body, t["args"][0])
+                out.append({"bb": i, "pos": ("t",), "root": r, "desc": "store through control-byte pointer via %s" % cp, "kinds": {"ctrl"}, "call": t})
     return out
 
 
@@ -511,9 +516,21 @@ def r_window(F, V):
         gds = guard_defs(body)
         bad = None
         npairs = 0
+        writes_ = tuple(j for j, t in body.calls() if (callee_path(t) or "") == "raw::Bucket::write")
+        records_ = [x["bb"] for x in sites if x["desc"].endswith("record_item_insert_at")]
         for s in sites:
+            if s["desc"].endswith("raw::Bucket::write") and any(body.dominates(r_, s["bb"]) for r_ in records_):
+                continue    # the write that completes the insertion (the slot was marked FULL just before): it closes the window
+            open_after = None
+            if s["desc"].endswith("record_item_insert_at") and writes_:
+                # insert_in_slot written out: marking the slot FULL opens a window that the write of the element closes
+                open_after = set()
+                for x in body.nsucc[s["bb"]]:
+                    open_after |= body.reachable_from(x, writes_)
             for (cb, cdesc) in cbs:
                 if not _after(body, s["bb"], s["pos"], cb):
+                    continue
+                if open_after is not None and cb not in open_after:
                     continue
                 npairs += 1
                 r = s["root"]
@@ -630,6 +647,18 @@ def r_bulkdrop_guard(F, V):
     # functions that require a dying/moved-out table: obligations move to callers
     DYING = ("raw::RawTableInner::drop_inner_table",)
     targets = BULK_DROPPERS + DYING
+    # a dying-table function that detaches the table itself (`let old = mem::replace(self, NEW)`) before it runs any destructor
+    # leaves its callers nothing to guard: whatever a destructor panic leaves behind is the detached local, self is the singleton
+    self_detaching = set()
+    for dn in DYING:
+        db_ = F.bodies.get(dn)
+        if db_ is None:
+            continue
+        reps = [(i, t) for i, t in db_.calls() if callee_path(t) == "core::mem::replace" and t["args"] and operand_deep_root(db_, t["args"][0])[0] == 1
+                and len(t["args"]) > 1 and t["args"][1]["k"] == "const" and (t["args"][1].get("def") or "").endswith("RawTableInner::NEW")]
+        des = [(i, t) for i, t in db_.calls() if callee_path(t) in BULK_DROPPERS]
+        if reps and des and all(any(db_.dominates(r_[0], d_[0]) for r_ in reps) and operand_deep_root(db_, d_[1]["args"][0])[0] in [r_[1]["dest"]["l"] for r_ in reps] for d_ in des):
+            self_detaching.add(dn)
     for p, body in F.bodies.items():
         gds = None
         for i, t in body.calls():
@@ -640,6 +669,9 @@ def r_bulkdrop_guard(F, V):
             key = "%s|%s" % (p, cp.split("::")[-1])
             if p.endswith("as Drop>::drop") or p in DYING:
                 R.inst(key, "%s in a destructor / dying-table function" % cp, "ok", False, where(body, bb=i))
+                continue
+            if cp in self_detaching:
+                R.inst(key, "%s detaches the table (mem::replace(self, NEW)) before it runs destructors" % cp, "ok", True, where(body, bb=i))
                 continue
             r, path = operand_deep_root(body, t["args"][0])
             if gds is None:
@@ -655,6 +687,26 @@ def r_bulkdrop_guard(F, V):
                         ok = "under live guard _%d whose closure resets the table" % g["local"]
             if ok is None and r is not None and fresh_local_root(body, r) and not guard_local_of_root(body, r):
                 ok = "receiver is a moved-out local table (_%d), the original was replaced first" % r
+                # ... unless the body means to put it back (clear keeps the allocation): then the put-back has to happen on unwinding too
+                back = []
+                for j2, k2, s2 in body.stmts():
+                    if s2["k"] == "assign" and s2["p"].get("proj") and s2["rv"]["k"] == "use" and s2["rv"]["op"]["k"] in ("copy", "move") \
+                            and body.root_of_place(s2["rv"]["op"]["p"])[0] == r and body.is_arg(body.root_of_place(s2["p"])[0]) and INNER in (s2["p"].get("t") or ""):
+                        back.append(j2)
+                for j2, t2 in body.calls():
+                    if callee_path(t2) in ("core::mem::replace", "core::mem::swap", "core::ptr::write") and len(t2["args"]) >= 2 and j2 != i:
+                        roots2 = [operand_deep_root(body, a2)[0] for a2 in t2["args"][:2]]
+                        if r in roots2 and any(x is not None and body.is_arg(x) for x in roots2) and j2 in body.reachable_from(i):
+                            back.append(j2)
+                if back:
+                    covered = any(guard_live_at(body, g, i) and r in g["roots"] for g in gds)
+                    if not covered:
+                        ok = None
+                        R.violation(key, body, "%s runs element destructors on a table that was detached from the collection and is re-attached only afterwards, on the normal path: when a destructor panics the collection is left "
+                                    "with the empty singleton while the detached block is neither returned to it nor freed - `clear()` loses the allocation it promises to keep and allocation_size() under-reports what is held" % cp,
+                                    line=line_of(body, bb=i))
+                        R.inst(key, "detached table not re-attached on unwind", "violation", True, where(body, bb=i))
+                        continue
             if ok is None and p in unwinding_only_closures(F):
                 ok = "inside an unwinding-only guard closure"
             if ok:
